@@ -1014,9 +1014,9 @@ impl<'a> Drop for ZipFile<'a> {
                 match reader.read(&mut buffer) {
                     Ok(0) => break,
                     Ok(_) => (),
-                    Err(e) => {
-                        panic!("Could not consume all of the output of the current ZipFile: {e:?}")
-                    }
+                    Err(e) if e.kind() == io::ErrorKind::Interrupted => (),
+                    // A destructor cannot report the failure; the next read from the stream will.
+                    Err(_) => break,
                 }
             }
         }
